@@ -19,88 +19,7 @@ sys.path.insert(0, VERIF)
 sys.path.insert(0, os.path.join(VERIF, "bin"))
 sys.dont_write_bytecode = True
 
-MODULES = ["SimpleJSONRPCServer", "jsonrpc", "jsonclass", "threadpool", "config", "utils", "history", "jsonlib"]
-CMP = {ast.Lt: ast.LtE, ast.LtE: ast.Lt, ast.Gt: ast.GtE, ast.GtE: ast.Gt, ast.Eq: ast.NotEq, ast.NotEq: ast.Eq,
-       ast.Is: ast.IsNot, ast.IsNot: ast.Is, ast.In: ast.NotIn, ast.NotIn: ast.In}
-
-
-def _py3_only(tree):
-    return tree
-
-
-class Site(object):
-    def __init__(self, kind, node, desc):
-        self.kind, self.node, self.desc = kind, node, desc
-
-
-def sites(tree):
-    """mutation sites in function bodies (docstrings, logging calls and module-level code excluded)"""
-    out = []
-    for fn in [n for n in ast.walk(tree) if isinstance(n, ast.FunctionDef)]:
-        for n in ast.walk(fn):
-            if isinstance(n, ast.Compare) and len(n.ops) == 1 and type(n.ops[0]) in CMP:
-                out.append(Site("cmp", n, "%s: comparison operator of `%s` swapped" % (fn.name, ast.unparse(n)[:60])))
-            elif isinstance(n, ast.BoolOp):
-                out.append(Site("bool", n, "%s: and/or swapped in `%s`" % (fn.name, ast.unparse(n)[:60])))
-            elif isinstance(n, (ast.If, ast.While)) and not (isinstance(n.test, ast.Constant)):
-                out.append(Site("neg", n, "%s: condition `%s` negated" % (fn.name, ast.unparse(n.test)[:60])))
-            elif isinstance(n, ast.Constant) and isinstance(n.value, bool):
-                out.append(Site("const", n, "%s: constant %r flipped" % (fn.name, n.value)))
-            elif isinstance(n, ast.Constant) and isinstance(n.value, int) and not isinstance(n.value, bool):
-                out.append(Site("const+", n, "%s: constant %r + 1" % (fn.name, n.value)))
-                out.append(Site("const-", n, "%s: constant %r - 1" % (fn.name, n.value)))
-            elif isinstance(n, ast.Constant) and isinstance(n.value, float):
-                out.append(Site("const+", n, "%s: constant %r + 1" % (fn.name, n.value)))
-            elif isinstance(n, ast.Return) and n.value is not None and not (isinstance(n.value, ast.Constant) and n.value.value is None):
-                out.append(Site("retnone", n, "%s: `%s` returns None instead" % (fn.name, ast.unparse(n)[:60])))
-            elif isinstance(n, ast.Call) and len(n.args) >= 2 and not any(isinstance(a, ast.Starred) for a in n.args[:2]):
-                out.append(Site("swapargs", n, "%s: first two arguments of `%s` swapped" % (fn.name, ast.unparse(n)[:60])))
-            elif isinstance(n, (ast.Break, ast.Continue)):
-                out.append(Site("brk", n, "%s: break <-> continue" % fn.name))
-        # statement deletions
-        for blk_owner in ast.walk(fn):
-            for field in ("body", "orelse", "finalbody"):
-                blk = getattr(blk_owner, field, None)
-                if not isinstance(blk, list):
-                    continue
-                for st in blk:
-                    if isinstance(st, ast.Expr) and isinstance(st.value, ast.Constant):
-                        continue
-                    if isinstance(st, ast.Expr) and isinstance(st.value, ast.Call):
-                        txt = ast.unparse(st.value.func)
-                        if txt.split(".")[-1] in ("debug", "info", "warning", "error", "exception", "critical", "log"):
-                            continue
-                        out.append(Site("delstmt", st, "%s: statement `%s` deleted" % (fn.name, ast.unparse(st)[:60])))
-                    elif isinstance(st, (ast.Assign, ast.AugAssign)) and len(blk) > 1:
-                        out.append(Site("delstmt", st, "%s: statement `%s` deleted" % (fn.name, ast.unparse(st)[:60])))
-                    elif isinstance(st, ast.Raise) and st.exc is not None:
-                        out.append(Site("delstmt", st, "%s: `%s` deleted" % (fn.name, ast.unparse(st)[:60])))
-    return out
-
-
-def apply(tree, site):
-    """mutate in place (tree is a private deep copy carrying the same node identities through a parallel walk)"""
-    n = site.node
-    k = site.kind
-    if k == "cmp":
-        n.ops = [CMP[type(n.ops[0])]()]
-    elif k == "bool":
-        n.op = ast.Or() if isinstance(n.op, ast.And) else ast.And()
-    elif k == "neg":
-        n.test = ast.UnaryOp(op=ast.Not(), operand=n.test)
-    elif k == "const":
-        n.value = not n.value
-    elif k == "const+":
-        n.value = n.value + 1
-    elif k == "const-":
-        n.value = n.value - 1
-    elif k == "retnone":
-        n.value = ast.Constant(None)
-    elif k == "swapargs":
-        n.args[0], n.args[1] = n.args[1], n.args[0]
-    elif k == "brk":
-        return ast.Continue() if isinstance(n, ast.Break) else ast.Break()
-    return None
+from selftest.mutants import MODULES, sites, apply, mutate      # noqa: E402
 
 
 def gen(out_path, repo="/repo"):
@@ -108,35 +27,12 @@ def gen(out_path, repo="/repo"):
     sources = read_sources(repo)
     muts = []
     for mod in MODULES:
-        base = ast.parse(sources[mod])
-        nsites = len(sites(base))
-        for i in range(nsites):
-            tree = ast.parse(sources[mod])          # fresh tree, same site order
-            s = sites(tree)[i]
-            if s.kind in ("delstmt", "brk"):
-                done = False
-                for owner in ast.walk(tree):
-                    for field in ("body", "orelse", "finalbody"):
-                        blk = getattr(owner, field, None)
-                        if isinstance(blk, list) and any(x is s.node for x in blk):
-                            j = [x is s.node for x in blk].index(True)
-                            if s.kind == "delstmt":
-                                blk[j] = ast.copy_location(ast.Pass(), s.node)
-                            else:
-                                blk[j] = ast.copy_location(ast.Continue() if isinstance(s.node, ast.Break) else ast.Break(), s.node)
-                            done = True
-                            break
-                    if done:
-                        break
-            else:
-                apply(tree, s)
-            ast.fix_missing_locations(tree)
-            try:
-                new_src = ast.unparse(tree)
-                compile(new_src, mod, "exec")
-            except Exception:
+        ss = sites(ast.parse(sources[mod]))
+        for i, s_ in enumerate(ss):
+            new_src = mutate(sources[mod], index=i)
+            if new_src is None:
                 continue
-            muts.append({"id": "%s#%d" % (mod, i), "module": mod, "kind": s.kind, "line": getattr(s.node, "lineno", 0), "desc": s.desc, "source": new_src})
+            muts.append({"id": "%s#%d" % (mod, i), "module": mod, "kind": s_.kind, "line": getattr(s_.node, "lineno", 0), "desc": s_.desc, "source": new_src})
     json.dump(muts, open(out_path, "w"))
     print("mutants:", len(muts))
 
